@@ -7,12 +7,14 @@
     request layer; a class whose reflection-table row is not wrapped calls its method
     directly).  All statements are for ALL expressions, dictionaries, stores, user code,
     resolution budgets, configurations; (1) and the nesting theorem also for all reflection
-    tables; (2) and (3) under the per-run obligation [table_ok rt = true], which the harness
-    discharges by [vm_compute] on the table reflected from the running package. *)
+    tables; (2), (3) and (4) under the per-run obligation [table_ok rt = true], which the harness
+    discharges by [vm_compute] on the table reflected from the running package.
+    (4) links this model to the core model Model/Eval.v ([eval] / [validate] / [keys] /
+    [explain], about which C01-C13 speak): it is the same semantics, for all expressions. *)
 From Coq Require Import List NArith ZArith Bool String.
 Import ListNotations.
 From LV Require Import Model.Base Model.Template Model.Eval Model.Derived Model.EvalRun
-  Model.Requests Model.RequestsRun Proofs.C18Proofs.
+  Model.Requests Model.RequestsRun Proofs.C18Proofs Proofs.C18Link.
 
 (** ** (1) Pass-through changes nothing and sees everything *)
 
@@ -127,6 +129,87 @@ Print Assumptions C18_requests_cover_nodes_explain.
 Print Assumptions C18_requests_nested.
 Print Assumptions C18_substitution_honoured_partial.
 
+(** ** (4) The request layer IS the core model *)
+
+(** The projection of a request-layer history onto the vocabulary of the core model
+    (Proofs/C18Link.v), spelled out: the core events are kept; a LogRequest handed to the runtime
+    is what the core model calls [EvLogReq]; every other piece of request bookkeeping (requests
+    issued, requests seen by handlers) is forgotten. *)
+Theorem C18_link_events_spec :
+  forall l : list hev,
+    link_events l =
+    flat_map (fun e => match e with
+                       | RCore c => [c]
+                       | RIssued r => match r.(rq_kind) with KLog => [EvLogReq] | _ => [] end
+                       | RSeen _ => []
+                       end) l.
+Proof. exact (fun l => eq_refl). Qed.
+Print Assumptions C18_link_events_spec.
+
+Section Link.
+  Variable S : Type.
+  Variable mem_find : N -> fp -> S -> option value.
+  Variable mem_store : N -> fp -> value -> S -> S.
+  Variable cfg : config.
+  Variable ucall : N -> list value -> cres.
+  Variable rfuel : nat.
+  Variable site_ok : expr -> dict -> bool.
+  Variable rt : rtable.
+
+  Notation deval := (deval S mem_find mem_store cfg ucall rfuel site_ok rt).
+  Notation dvalidate := (dvalidate S mem_find mem_store cfg ucall rfuel site_ok rt).
+  Notation dkeys := (dkeys S mem_find mem_store cfg ucall rfuel site_ok rt).
+  Notation dexplain := (dexplain S mem_find mem_store cfg ucall rfuel site_ok rt).
+  Notation eval := (eval S mem_find mem_store cfg ucall rfuel site_ok).
+  Notation validate := (validate S mem_find mem_store cfg ucall rfuel site_ok).
+  Notation keys := (keys S mem_find mem_store cfg ucall rfuel site_ok).
+  Notation explain := (explain S mem_find mem_store cfg ucall rfuel site_ok).
+
+  (** For ALL expressions, positions, dictionaries, stores (and store types, user code,
+      budgets, configurations, ghost oracles): with every class wrapped and no handler installed,
+      each of the four interpreters of the request layer computes exactly what the corresponding
+      interpreter of Model/Eval.v computes - same result (value or error, EvaluationError flag
+      included), same final store, same history of core events (option reads, user calls, cache
+      exists/get/set, log requests and emissions, ghost events) in the same order.  The two
+      transcriptions are one semantics; the C18 theorems about [deval] … are theorems about
+      [eval] …. *)
+  Theorem C18_request_layer_is_core_model :
+    table_ok rt = true ->
+    forall e p o s,
+      eval e o s = (let '(r, s', l) := run S no_handlers (deval p e o) s in (r, s', link_events l)) /\
+      validate e o s = (let '(r, s', l) := run S no_handlers (dvalidate p e o) s in (r, s', link_events l)) /\
+      keys e o s = (let '(r, s', l) := run S no_handlers (dkeys p e o) s in (r, s', link_events l)) /\
+      explain e o s = (let '(r, s', l) := run S no_handlers (dexplain p e o) s in (r, s', link_events l)).
+  Proof. exact (link_runs S mem_find mem_store cfg ucall rfuel site_ok rt). Qed.
+
+  (** … and so does every run under recording pass-through handlers for any set of request
+      kinds: pass-through leaves the CORE MODEL's results, stores and histories unchanged. *)
+  Theorem C18_passthrough_is_core_model :
+    table_ok rt = true ->
+    forall K e p o s,
+      eval e o s = (let '(r, s', l) := run S (passthrough K) (deval p e o) s in (r, s', link_events l)) /\
+      validate e o s = (let '(r, s', l) := run S (passthrough K) (dvalidate p e o) s in (r, s', link_events l)) /\
+      keys e o s = (let '(r, s', l) := run S (passthrough K) (dkeys p e o) s in (r, s', link_events l)) /\
+      explain e o s = (let '(r, s', l) := run S (passthrough K) (dexplain p e o) s in (r, s', link_events l)).
+  Proof. exact (link_runs_passthrough S mem_find mem_store cfg ucall rfuel site_ok rt). Qed.
+
+  (** what the link needs of the reflection table, exactly: every class's [evaluate] is a
+      request-issuing wrapper (its default handler is what turns every exception into an
+      EvaluationError) and [Logged] issues its LogRequest; whether the other methods and side
+      operations are wrapped does not matter to a run without handlers. *)
+  Theorem C18_request_layer_is_core_model_minimal :
+    (forall c, wrapped rt c KEval = true) -> wrapped rt CtLogged KLog = true ->
+    forall e p o s,
+      eval e o s = (let '(r, s', l) := run S no_handlers (deval p e o) s in (r, s', link_events l)) /\
+      validate e o s = (let '(r, s', l) := run S no_handlers (dvalidate p e o) s in (r, s', link_events l)) /\
+      keys e o s = (let '(r, s', l) := run S no_handlers (dkeys p e o) s in (r, s', link_events l)) /\
+      explain e o s = (let '(r, s', l) := run S no_handlers (dexplain p e o) s in (r, s', link_events l)).
+  Proof. exact (link_runs_weak S mem_find mem_store cfg ucall rfuel site_ok rt). Qed.
+End Link.
+Print Assumptions C18_request_layer_is_core_model.
+Print Assumptions C18_passthrough_is_core_model.
+Print Assumptions C18_request_layer_is_core_model_minimal.
+
 (** ** Witnesses and non-vacuity (closed by computation on the concrete instance) *)
 Definition k10 : key := [SName 10%N].
 Definition ds (cache : cache_ref) (kw : list expr) : expr :=
@@ -175,6 +258,36 @@ Example C18_nontrivial_passthrough :
   List.length (seen l) = 46%nat.
 Proof. vm_compute. repeat split; reflexivity. Qed.
 Print Assumptions C18_nontrivial_passthrough.
+
+(** (4) on a non-trivial instance (the dataset of [C18_nontrivial_passthrough]: memory cache, logged
+    body, option read, user call): the core model and the request layer under pass-through
+    handlers for all kinds yield the same value, the same store (one new cache entry) and the same
+    10 core events, among them the log request and its emission, the cache miss, the store and
+    the read-back *)
+Example C18_link_nontrivial :
+  let e := ds (CMem 1%N) [EOption k10 None None] in
+  let o := [(SName 10%N, JInt 3)] in
+  let core := eval store mem_find mem_store cfg0 (ucall_of []) default_fuel (fun _ _ => true) e o [] in
+  let '(r, s', l) := run_eval full_table cfg0 (passthrough (fun _ => true)) e o in
+  core = (r, s', link_events l) /\
+  r = Ok (VT 100%N [VJ (JInt 3)]) /\ List.length s' = 1%nat /\
+  link_events l =
+    [EvRead k10 true; EvCacheExists 1 false; EvLogReq; EvLogEmit; EvRead k10 true;
+     EvCall 100 [VJ (JInt 3)]; EvRead k10 true; EvCacheSet 1; EvRead k10 true; EvCacheGet 1 true] /\
+  List.length (issued l) = 46%nat.
+Proof. vm_compute. repeat split; reflexivity. Qed.
+Print Assumptions C18_link_nontrivial.
+
+(** the hypothesis of (4) is NEEDED: with [bypass_table] (Switch.evaluate not a wrapper) a switch
+    on an unhashable dispatch value fails with a bare TypeError in the request layer, with an
+    EvaluationError in the core model (and in the request layer with every class wrapped) *)
+Example C18_link_needs_wrapping :
+  let e := ESwitch (EValue (VJ (JList []))) [] None in
+  fst (fst (eval store mem_find mem_store cfg0 (ucall_of []) default_fuel (fun _ _ => true) e [] [])) = Err CType true /\
+  fst (fst (run_eval full_table cfg0 no_handlers e [])) = Err CType true /\
+  fst (fst (run_eval bypass_table cfg0 no_handlers e [])) = Err CType false.
+Proof. vm_compute. repeat split; reflexivity. Qed.
+Print Assumptions C18_link_needs_wrapping.
 
 (** (3) is not vacuous: a consumer dataset (caching disabled by context) of a dataset [d] that
     needs a missing option: with the handler answering 7 for [d] the consumer evaluates to
